@@ -177,6 +177,8 @@ type c06Result struct {
 	incon    bool
 	witness  any
 	requests int
+	phone    string
+	first    uint16 // serial of the first handled message (identifies the connection's recorder)
 }
 
 // c06Conversation runs one connection's conversation and checks it. mode: 0 one frame per write, 1 pipelined segments, 2 mixed.
@@ -448,6 +450,7 @@ func c06Conversation(addr string, cid int, seed uint64, nreq int, mode int, wrap
 	if svc.RaceMode {
 		return
 	}
+	res.phone, res.first = t.Phone, firstSerial
 	rec := svc.Lookup(t.Phone, firstSerial)
 	if rec == nil {
 		bad("callback|no callbacks recorded for the connection", fmt.Sprintf("conn %d phone %s", cid, t.Phone))
@@ -566,7 +569,12 @@ func c06Suite(c *core.Collector, seed uint64, batch int, conns, nreq int, wraps 
 		for _, h := range r.hashes {
 			c.NonTrivial(h)
 		}
-		if cid%5 == 2 && !wrap && len(r.viol) == 0 && !r.incon {
+		if cid%5 == 2 && !wrap && len(r.viol) == 0 && !r.incon && !svc.RaceMode && r.phone != "" {
+			// (the first connection has been closed by now; wait until the server has seen that: its leave callback)
+			if rec := svc.Lookup(r.phone, r.first); rec == nil || !rec.WaitLeave(30*time.Second) {
+				c.Inconclusive()
+				return
+			}
 			// the terminal comes back: a new connection with the SAME phone number after the first one has gone — it is a new
 			// conversation (platform serials from 0 again, nothing remembered from the old connection)
 			r2 := c06Conversation(srv.Addr, cid, seed+7777, n/2, (mode+1)%3, false, !frag)
